@@ -222,10 +222,36 @@ func (g *c18Gen) intT() *c18T {
 	return &t
 }
 
+// smallStruct: 2-3 narrow fields (total size 2-7 bytes), so that a copy of the wrong width spills
+// into the neighbouring element or field.
+func (g *c18Gen) smallStruct() *c18T {
+	narrow := []c18T{{kind: "int", name: "i8", bits: 8, signed: true}, {kind: "int", name: "u8", bits: 8}, {kind: "int", name: "i16", bits: 16, signed: true}, {kind: "int", name: "u16", bits: 16}, {kind: "int", name: "bool", bits: 8, isBool: true}}
+	st := &c18T{kind: "struct", name: fmt.Sprintf("T%d", len(g.structs))}
+	g.structs = append(g.structs, st)
+	nf := 2 + g.rng.IntN(2)
+	same := g.rng.IntN(2) == 0
+	first := narrow[g.rng.IntN(len(narrow))]
+	for i := 0; i < nf; i++ {
+		t := first
+		if !same {
+			t = narrow[g.rng.IntN(len(narrow))]
+		}
+		st.fields = append(st.fields, c18F{fmt.Sprintf("F%d", i), &t})
+	}
+	return st
+}
+
 func (g *c18Gen) typ(depth int) *c18T {
 	k := g.rng.IntN(6)
 	if depth <= 0 {
 		k = 0
+	}
+	if depth > 0 && g.rng.IntN(5) == 0 {
+		// an array of small structs (elements of 2-7 bytes), or one small struct
+		if g.rng.IntN(3) == 0 {
+			return g.smallStruct()
+		}
+		return &c18T{kind: "arr", n: 2 + g.rng.IntN(3), elem: g.smallStruct()}
 	}
 	switch {
 	case k < 2:
@@ -268,6 +294,26 @@ func c18Leaves(prefix string, t *c18T, out *[]c18Leaf) {
 	case "arr":
 		for i := 0; i < t.n; i++ {
 			c18Leaves(fmt.Sprintf("%s[%d]", prefix, i), t.elem, out)
+		}
+	}
+}
+
+// c18Aggs collects the paths of proper sub-aggregates (struct-typed fields, aggregate elements, array fields).
+func c18Aggs(prefix string, t *c18T, out *[]c18Leaf) {
+	switch t.kind {
+	case "struct":
+		if prefix != "" {
+			*out = append(*out, c18Leaf{prefix, t})
+		}
+		for _, f := range t.fields {
+			c18Aggs(prefix+"."+f.name, f.t, out)
+		}
+	case "arr":
+		if prefix != "" {
+			*out = append(*out, c18Leaf{prefix, t})
+		}
+		for i := 0; i < t.n; i++ {
+			c18Aggs(fmt.Sprintf("%s[%d]", prefix, i), t.elem, out)
 		}
 	}
 }
@@ -390,6 +436,47 @@ func c18Program(rng *rand.Rand, wasm bool) (string, []string) {
 	cp[lf.path] = nv
 	dump("w", cp)
 	dump("v", cur)
+	// whole sub-aggregates assigned at once: from the other variable, and between sibling elements
+	var aggs []c18Leaf
+	c18Aggs("", root, &aggs)
+	under := func(path, prefix string) bool {
+		return strings.HasPrefix(path, prefix) && (len(path) == len(prefix) || path[len(prefix)] == '.' || path[len(prefix)] == '[')
+	}
+	if len(aggs) > 0 {
+		for s := 0; s < 1+rng.IntN(2); s++ {
+			ag := aggs[rng.IntN(len(aggs))]
+			fmt.Fprintf(&sb, "    v%s = w%s;\n", ag.path, ag.path)
+			for _, lf := range leaves {
+				if under(lf.path, ag.path) {
+					cur[lf.path] = cp[lf.path]
+				}
+			}
+			dump("v", cur)
+		}
+		var arrs []c18Leaf
+		for _, ag := range aggs {
+			if ag.t.kind == "arr" && ag.t.n >= 2 && ag.t.elem.kind != "int" {
+				arrs = append(arrs, ag)
+			}
+		}
+		if root.kind == "arr" && root.n >= 2 && root.elem.kind != "int" {
+			arrs = append(arrs, c18Leaf{"", root})
+		}
+		if len(arrs) > 0 {
+			ar := arrs[rng.IntN(len(arrs))]
+			i := rng.IntN(ar.t.n)
+			j := (i + 1 + rng.IntN(ar.t.n-1)) % ar.t.n
+			dst, src := fmt.Sprintf("%s[%d]", ar.path, i), fmt.Sprintf("%s[%d]", ar.path, j)
+			fmt.Fprintf(&sb, "    w%s = w%s;\n", dst, src)
+			for _, lf := range leaves {
+				if under(lf.path, dst) {
+					cp[lf.path] = cp[src+lf.path[len(dst):]]
+				}
+			}
+			dump("w", cp)
+		}
+		dump("v", cur)
+	}
 	// by-value call
 	fmt.Fprintf(&sb, "    let r: %s = poke(v);\n    io::Println(r);\n", fl.t)
 	exp = append(exp, c18Fmt(fl.t, c18Sentinel(fl.t, 200)))
@@ -406,7 +493,7 @@ func c18Program(rng *rand.Rand, wasm bool) (string, []string) {
 
 func checkC18(c *Ctx) error {
 	r := c.R
-	r.Rule = "(a) random type expressions (depth <= 4) over all primitive widths 1-32 bytes, str, references, fixed arrays, structs, optionals and results, evaluated by the compiler's DataLayout for pointer sizes 4 and 8 and checked against the layout invariants; (b) generated programs over a random composite (structs of mixed widths incl. 128/256-bit natively, nested structs, fixed arrays of structs) that print every leaf after initialisation with distinct full-width sentinels, after each single-leaf overwrite, after a copy + overwrite of the copy (both values), after a by-value call, and after wrapping in an optional (some / none), plus three canary locals — native and wasm; non-trivial = a distinct type expression / program whose every observation matched"
+	r.Rule = "(a) random type expressions (depth <= 4) over all primitive widths 1-32 bytes, str, references, fixed arrays, structs, optionals and results, evaluated by the compiler's DataLayout for pointer sizes 4 and 8 and checked against the layout invariants; (b) generated programs over a random composite (structs of mixed widths incl. 128/256-bit natively, nested structs, fixed arrays of structs) that print every leaf after initialisation with distinct full-width sentinels, after each single-leaf overwrite, after a copy + overwrite of the copy (both values), after whole sub-aggregates are assigned from the other variable and between sibling array elements (incl. arrays of 2-7 byte structs), after a by-value call, and after wrapping in an optional (some / none), plus three canary locals — native and wasm; non-trivial = a distinct type expression / program whose every observation matched"
 	r.Assumptions = []string{"optional flag at offset SizeOf(inner) and result discriminant after the payload union (as runtime/core/optional.c and the emitters use them)", "the wasm back end has no optionals and no 128/256-bit integers: those parts run natively only"}
 	nTypes := c.N(2000, 100000)
 	for _, ptr := range []int{4, 8} {
